@@ -69,14 +69,15 @@ c.finish(
         "object syntax is abstract in the proofs: parse (fmt o ++ LF :: rest) = (norm o, LF :: rest) is C01's theorem; the instance that is run uses a canonical formatter",
         "ciphers, filter encoders and zlib are Section variables with dec(enc x) = x; random IVs are a fixed function per Section",
         "the moment a filter chain hands 1024 bytes to the stream writer is angelic input (observed from the sink), it only decides when the indirect /Length object is allocated",
-        "values are compared after norm (nil array = null, null dictionary entries absent); a stream whose dictionary already declares /Filter is compared on the data after the whole chain has been decoded (the caller pre-encodes), and only its kind is compared with the model",
+        "values are compared after norm (nil array = null, null dictionary entries absent); for every stream /Filter and /DecodeParms as read back are compared with the model's stream_dict (names and parameters, index by index); a stream whose dictionary already declares /Filter (the caller pre-encodes) is compared on the data after the whole chain has been decoded, and - with the model - on the data after only the filters of OpenStream have been undone",
+        "position-dependent behaviour of the reader (its 1024-byte buffer) is outside the model, which has no buffer: the boundary sweeps (objects whose padding grows byte by byte so that every token of a tail of escapes, strings, references, numbers, keywords and closing delimiters falls on the buffer end; direct objects, object-stream members, stream dictionaries; compact, human-readable, RC4) are judged by the direct oracle (written value = value read), a sample of them also runs through the model",
     ],
     trusted=[
         "hand-written Gallina models coq/C02/Writer.v, Reader.v of writer.go/xref.go/reader.go, tied by correspondence in both directions",
         "Gen_Consts.maxXRefSize/maxGeneration, Gen_Limits.MaxXRefEntries, Gen_C02.defaultOutputOptions are regenerated from the Go source on every run",
     ],
     partial=[
-        "write_read_full (Definition) is proved in these parts: write_read_table_mode - complete for files with an xref table (Reader.open on the bytes, version, Get of every reference over the re-read map: null / normalised object / stream dictionary and raw data under the three /Length strategies); open_xref_stream_mode - Reader.open for xref-stream files (rows decoded back into the serialised map); write_read_partial + write_read_members - Get over the writer's map for direct objects, streams and members of object streams; filter_chain_read_back + stream_data_round_trip - the chain read from /Filter,/DecodeParms and the decoded data. Still only executed (on every case): for xref-stream files the transfer of Get from the writer's map to the re-read map (the stream's own number is free and exempt from decryption there), and trailer Root/Info/ID.",
+        "write_read_full (Definition) is proved in these parts: write_read_table_mode - complete for files with an xref table (Reader.open on the bytes, version, Get of every reference over the re-read map: null / normalised object / stream dictionary and raw data under the three /Length strategies); open_xref_stream_mode - Reader.open for xref-stream files (rows decoded back into the serialised map); write_read_partial + write_read_members - Get over the writer's map for direct objects, streams and members of object streams; filter_chain_read_back + stream_data_round_trip - the chain read from /Filter,/DecodeParms and the decoded data; declared_chain_read_back + declared_chain_is_callers + stream_data_declared_chain + stream_dict_filters_aligned - the same for OpenStream on a dictionary that declares a chain already (any shape of the declaration): the filters of OpenStream come first, the declared ones follow with their own parameters, the arrays stay aligned. Still only executed (on every case): for xref-stream files the transfer of Get from the writer's map to the re-read map (the stream's own number is free and exempt from decryption there), and trailer Root/Info/ID.",
         "the syntax hypotheses are restricted to the contexts that occur (a value before LF endobj / LF stream / LF startxref / the next object-stream member) and to well-formed values; C03's syntax_hypotheses_hold proves them for the canonical formatter and the validator's parser (an unrestricted version would be unsatisfiable: 5 LF 0 R reads as a reference).",
         "no_alias_write_inplace_refuted, put_twice_inplace_refuted, append_filter_direct_refuted: the unsafe variants (F1 in-place RC4; append on the caller's slice) are refuted, the variants the code uses now are proved safe.",
         "findings: a WriteCompressed batch of more than 10000 objects is unreadable (members_bound in write_read_members); operations after Close are accepted.",
